@@ -135,10 +135,24 @@ def r3(ctx):
     # concat
     f = ctx.fn("data.ScreenSubset.concat")
     lst = [p for p in f.params if p != "cls"][0]
-    loops = [n for n in walk_own(f.node) if isinstance(n, ast.For) and U(n.iter) == lst]
-    ctx.need(len(loops) == 1, "ScreenSubset.concat: fold loop not found")
+    # aliases of list parts: first, *rest = L ; first = L[0] ; rest = L[1:] ; parent = first.screen
+    env = dict(single_defs(f.node))
+    for n in walk_own(f.node):
+        if isinstance(n, ast.Assign) and len(n.targets) == 1 and isinstance(n.targets[0], (ast.Tuple, ast.List)) and U(n.value) == lst:
+            els = n.targets[0].elts
+            if len(els) == 2 and isinstance(els[0], ast.Name) and isinstance(els[1], ast.Starred) and isinstance(els[1].value, ast.Name):
+                env[els[0].id] = ast.parse(f"{lst}[0]", mode="eval").body
+                env[els[1].value.id] = ast.parse(f"{lst}[1:]", mode="eval").body
+
+    def C(e):
+        return U(inline(e, {k: v for k, v in env.items() if k != "selection_vector"})).replace(" ", "")
+    loops = [n for n in walk_own(f.node) if isinstance(n, ast.For) and C(n.iter) in (lst, f"{lst}[1:]") and isinstance(n.target, ast.Name)
+             and any(isinstance(x, (ast.Assign, ast.AugAssign)) for x in ast.walk(n))]
+    if len(loops) != 1:
+        raise AnalysisError(f"{f.site()}: the union is not accumulated by one loop over the list (or its tail) - fold form not recognised")
     loop = loops[0]
     lv = loop.target.id
+    over = C(loop.iter)
     acc_updates = [n for n in walk_own(loop) if isinstance(n, (ast.Assign, ast.AugAssign))]
     acc = None
     forms = []
@@ -148,16 +162,44 @@ def r3(ctx):
             forms.append(U(n.value).replace(" ", ""))
         elif isinstance(n, ast.AugAssign):
             forms.append("AUG:" + U(n).replace(" ", ""))
-    want = {f"{lv}.selection_vector", f"{acc}|{lv}.selection_vector", f"{lv}.selection_vector|{acc}"}
-    ctx.check("R3", f"{f.site()}::fold", acc is not None and set(forms) <= want and len(forms) >= 2,
+    inits = [n for n in walk_own(f.node) if isinstance(n, ast.Assign) and acc and U(n.targets[0]) == acc and n not in acc_updates]
+    init = C(inits[0].value) if len(inits) == 1 else None
+    step = {f"{acc}|{lv}.selection_vector", f"{lv}.selection_vector|{acc}"}
+    if init == "None":
+        # first element seeds the accumulator inside the loop
+        fold_ok = over == lst and set(forms) <= step | {f"{lv}.selection_vector"} and f"{lv}.selection_vector" in forms and bool(set(forms) & step)
+    elif init == f"{lst}[0].selection_vector":
+        fold_ok = over in (lst, f"{lst}[1:]") and set(forms) <= step and bool(forms)
+    else:
+        fold_ok = False
+    ctx.check("R3", f"{f.site()}::fold", acc is not None and fold_ok,
               "accumulator starts at the first selection and is OR-ed (out of place) with each further one",
-              f"concat accumulates with {forms}")
-    g = CFG(f.node)
-    guards = [(U(t.stmt.test).replace(" ", ""), arm) for t, arm in g.raising_guards()]
-    ok = any(tx == f"{lv}.screenisnot{lst}[0].screen" for tx, arm in guards) and any(tx == f"len({lst})==0" for tx, arm in guards)
-    ctx.check("R3", f"{f.site()}::guards", ok, "refuses empty input and views of different parents", f"guards found: {guards}")
+              f"concat accumulates with {forms} from `{init}` over `{over}`")
+    from engine.astutil import raise_guards
+    Ng = Norm(strict=False)
+    parent_guard = False
+    empty_guard = False
+    P = f"{lst}[0].screen"
+    for n in walk_own(f.node):
+        if isinstance(n, ast.If) and n.body and isinstance(n.body[-1], ast.Raise):
+            t = n.test
+            tx = C(t)
+            if tx in (f"len({lst})==0", f"not{lst}", f"len({lst})<1"):
+                empty_guard = True
+            # per-element identity test inside a loop over the list / its tail
+            par_ = enclosing_map(f.node)
+            lp = par_.get(n)
+            if isinstance(lp, ast.For) and C(lp.iter) in (lst, f"{lst}[1:]") and isinstance(lp.target, ast.Name) and tx in (f"{lp.target.id}.screenisnot{P}", f"{P}isnot{lp.target.id}.screen"):
+                parent_guard = True
+            # any(x.screen is not P for x in list / tail)
+            if isinstance(t, ast.Call) and U(t.func) == "any" and len(t.args) == 1 and isinstance(t.args[0], (ast.GeneratorExp, ast.ListComp)) and len(t.args[0].generators) == 1:
+                g_ = t.args[0].generators[0]
+                if C(g_.iter) in (lst, f"{lst}[1:]") and isinstance(g_.target, ast.Name) and not g_.ifs and C(t.args[0].elt) in (f"{g_.target.id}.screenisnot{P}", f"{P}isnot{g_.target.id}.screen"):
+                    parent_guard = True
+    ctx.check("R3", f"{f.site()}::guards", parent_guard and empty_guard, "refuses empty input and views of different parents",
+              f"{'no refusal of an empty list; ' if not empty_guard else ''}{'no identity test of every view parent against the first one' if not parent_guard else ''}")
     rr = [x for x in returns(f.node) if isinstance(x.value, ast.Call)]
-    ok = len(rr) == 1 and U(rr[0].value.args[0]) == f"{lst}[0].screen" and U(rr[0].value.args[1]) == acc
+    ok = len(rr) == 1 and len(rr[0].value.args) == 2 and C(rr[0].value.args[0]) == P and U(rr[0].value.args[1]) == acc
     ctx.check("R3", f"{f.site()}::result", ok, "result is a view of the common parent with the accumulated selection",
               f"concat returns `{U(rr[0].value) if rr else None}`")
     # observed / unobserved
